@@ -251,6 +251,7 @@ ENVELOPE_FIELDS = ("version", "flags", "l0", "l1", "l2", "root_key_id", "kdf_alg
 
 def pack_envelope(e: dict) -> bytes:
     ka, sa, dn, fn = _u16z(e["kdf_alg"]), _u16z(e["secret_alg"]), _u16z(e["domain"]), _u16z(e["forest"])
+    dn, fn = e.get("domain_raw", dn), e.get("forest_raw", fn)  # (raw name bytes: only for building damaged envelopes)
     head = struct.pack("<I4sIIII", e["version"], b"KDSK", e["flags"], e["l0"] & 0xFFFFFFFF, e["l1"] & 0xFFFFFFFF, e["l2"] & 0xFFFFFFFF)
     head += e["root_key_id"].bytes_le
     head += struct.pack("<10I", len(ka), len(e["kdf_params"]), len(sa), len(e["secret_params"]), e["private_key_length"],
